@@ -327,6 +327,22 @@ func (m Mix) next(g *sim.G) *sim.Op {
 	if m.Restart > 0 && len(g.W.Steps) > 0 && g.Pct("restart", m.Restart) {
 		return &sim.Op{Kind: "restart", Label: "restart"}
 	}
+	if n := len(g.W.Steps); m.Recv > 0 && n > 0 && g.W.Steps[n-1].Op.Kind == "restart" {
+		// right after an export/import the most recently accepted messages are submitted again
+		var ops []*sim.Op
+		for i := n - 1; i >= 0 && len(ops) < 5; i-- {
+			st := g.W.Steps[i]
+			if st.Op.Kind == "tx" && st.OK() && len(st.Msgs) == 1 {
+				if _, ok := st.Msgs[0].(*types.MsgReceiveMessage); ok {
+					ops = append(ops, cloneOp(st.Op).WithMeta("vary", "after-restart"))
+				}
+			}
+		}
+		if len(ops) > 0 {
+			queueOps(g, ops[1:]...)
+			return ops[0]
+		}
+	}
 	if m.Rollback > 0 && g.Pct("rollbackprobe", m.Rollback) {
 		ops := rollbackProbe(g, "rb")
 		queueOps(g, ops[1:]...)
